@@ -56,6 +56,15 @@ POS = {
     "where_cmp_r": ("op", lambda Q, x: Q.from_(T()).select(T().k).where(T().k == x)),
     "having_cmp": ("op", lambda Q, x: Q.from_(T()).select(T().k).groupby(T().k).having(x > 1)),
     "on_cmp": ("op", lambda Q, x: Q.from_(T()).join(Table("u")).on((T().id == Table("u").id) & (x == 2)).select(T().k)),
+    # a criterion-typed term (aliased) as a conjunct / the root of ON, WHERE, HAVING
+    "on_conjunct": ("op", lambda Q, x: Q.from_(T()).join(Table("u")).on((T().id == Table("u").id) & x).select(T().k) if isinstance(x, Criterion) else None),
+    "on_conjunct_first": ("op", lambda Q, x: Q.from_(T()).join(Table("u")).on(x & (T().id == Table("u").id)).select(T().k) if isinstance(x, Criterion) else None),
+    "on_root": ("op", lambda Q, x: Q.from_(T()).join(Table("u")).on(x).select(T().k) if isinstance(x, Criterion) else None),
+    "on_root_left_join_sub": ("op", lambda Q, x: (lambda s: Q.from_(T()).left_join(s).on(x).select(T().k))(Q.from_(Table("u")).select("id").as_("sj"))
+                              if isinstance(x, Criterion) else None),
+    "where_conjunct": ("op", lambda Q, x: Q.from_(T()).select(T().k).where((T().k == 1) & x) if isinstance(x, Criterion) else None),
+    "having_root": ("op", lambda Q, x: Q.from_(T()).select(T().k).groupby(T().k).having(x) if isinstance(x, Criterion) else None),
+    "update_join_on": ("op", lambda Q, x: Q.update(T()).join(Table("u")).on((T().id == Table("u").id) & (x == 2)).set(T().k, 1)),
     "groupby_unrelated": ("op", lambda Q, x: Q.from_(T()).select(T().k).groupby(x)),
     "orderby_unrelated": ("op", lambda Q, x: Q.from_(T()).select(T().k).orderby(x)),
     "arith_l": ("op", lambda Q, x: Q.from_(T()).select((x + 1).as_("out"))),
@@ -76,6 +85,10 @@ POS = {
     "agg_filter": ("op", lambda Q, x: Q.from_(T()).select(AggregateFunction("SUM", T().k).filter(x == 1).as_("out"))),
     "over_partition": ("op", lambda Q, x: Q.from_(T()).select(AN.Sum(T().k).over(x).as_("out"))),
     "over_order": ("op", lambda Q, x: Q.from_(T()).select(AN.Sum(T().k).over(T().k).orderby(x).as_("out"))),
+    "over_order_only": ("op", lambda Q, x: Q.from_(T()).select(AN.Rank().orderby(x).as_("out"))),
+    "over_empty_order": ("op", lambda Q, x: Q.from_(T()).select(AN.Sum(T().k).over().orderby(x, order=Order.desc).as_("out"))),
+    "over_order_rows": ("op", lambda Q, x: Q.from_(T()).select(AN.Sum(T().k).orderby(x).rows(AN.Preceding(1), AN.CURRENT_ROW).as_("out"))),
+    "over_order_unaliased_fn": ("op", lambda Q, x: Q.from_(T()).select(AN.Rank().orderby(x), T().k)),
     "tuple_el": ("op", lambda Q, x: Q.from_(T()).select(T().k).where(Tuple(x, 1) == Tuple(2, 3))),
     "select_in_select_arith": ("op", lambda Q, x: Q.from_(T()).select(T().k, (x + T().k).as_("out"))),
     "set_value": ("op", lambda Q, x: Q.update(T()).set(T().k, x)),
@@ -337,6 +350,8 @@ def run_case(case):
     try:
         a = fn(Q, mk(name, True))
         b = fn(Q, mk(name, False))
+        if a is None:
+            return res  # position takes criteria only
     except Exception as e:
         if (pos, type(e).__name__) in (("returning", "QueryException"),):  # RETURNING accepts columns of the target and constants only
             res.extra["disabled"] = 1
